@@ -51,8 +51,14 @@ def hasInfix (p : List Char) : List Char → Bool
 /-- the name carries the generated-name tag -/
 def isDrc (n : String) : Bool := hasInfix "-DRC-".toList n.toList
 
+/-- the name is an address (such tunnel-groups are anchors): IPv4 digits and dots, or IPv6 hex digits with a colon -/
+def isAddr (n : String) : Bool :=
+  let cs := n.toList
+  !cs.isEmpty && (cs.all (fun c => c.isDigit || c == '.') ||
+    (cs.contains ':' && cs.all fun c => c.isDigit || c == ':' || ('a' ≤ c && c ≤ 'f') || ('A' ≤ c && c ≤ 'F')))
+
 def newSecObj (k : Kind) (n h : String) (m : Bool) : Obj :=
-  { kind := k, name := n, drc := isDrc n, anchor := (k == .user || k == .tg), secs := [{ head := h, mode := m }] }
+  { kind := k, name := n, drc := isDrc n, anchor := (k == .user || (k == .tg && isAddr n)), secs := [{ head := h, mode := m }] }
 def newLeaf (k : Kind) (n t : String) : Obj := { kind := k, name := n, drc := isDrc n, lines := [t] }
 
 /-- put a sub-command into section `h`: exact duplicate ⇒ nothing; same key and a reference ⇒ replace; else append -/
